@@ -12,8 +12,9 @@ package tabular // import "go.pennock.tech/tabular"
 func (t *ATable) InvokeRenderCallbacks() {
 	ec := t.ErrorContainer
 	invokePropertyCallbacks(t.tableItselfCallbacks, CB_AT_RENDER_PRECELL, t, ec)
-	for _, col := range t.columns {
-		invokePropertyCallbacks(col.columnItselfCallbacks, CB_AT_RENDER_PRECELL, &col, ec)
+	for i := range t.columns {
+		col := &t.columns[i]
+		invokePropertyCallbacks(col.columnItselfCallbacks, CB_AT_RENDER_PRECELL, col, ec)
 	}
 	if t.headerRow != nil {
 		t.headerRow.invokeRenderCallbacks(t, ec)
@@ -21,8 +22,9 @@ func (t *ATable) InvokeRenderCallbacks() {
 	for _, row := range t.rows {
 		row.invokeRenderCallbacks(t, ec)
 	}
-	for _, col := range t.columns {
-		invokePropertyCallbacks(col.columnItselfCallbacks, CB_AT_RENDER_POSTCELL, &col, ec)
+	for i := range t.columns {
+		col := &t.columns[i]
+		invokePropertyCallbacks(col.columnItselfCallbacks, CB_AT_RENDER_POSTCELL, col, ec)
 	}
 	invokePropertyCallbacks(t.tableItselfCallbacks, CB_AT_RENDER_POSTCELL, t, ec)
 }
